@@ -102,6 +102,11 @@ def _job(s):
         return (s, False, "error: %r" % e, [])
 
 
+def _report(r):
+    s, ok, msg, keys = r
+    print("[%s] %-42s %-4s %s  %s" % ("ok" if ok else "FAIL", s["name"], s["property"], msg, "; ".join(keys)[:300]), flush=True)
+
+
 def main(args, tier="quick"):
     specs = load_specs()
     jobs = int(os.environ.get("VCHECK_JOBS", "4"))
@@ -113,14 +118,17 @@ def main(args, tier="quick"):
         import multiprocessing as mp
         counter = mp.Value("i", 0)
         with mp.Pool(min(jobs, len(specs)), initializer=_init_worker, initargs=(counter,)) as pool:
-            results = pool.imap(_job, specs)
-            results = list(results)
+            results = []
+            for r in pool.imap(_job, specs):
+                results.append(r)
+                _report(r)
     else:
-        results = [_job(s) for s in specs]
-    for s, ok, msg, keys in results:
-        print("[%s] %-42s %-4s %s  %s" % ("ok" if ok else "FAIL", s["name"], s["property"], msg, "; ".join(keys)[:300]))
-        if not ok:
-            fails += 1
+        results = []
+        for s in specs:
+            r = _job(s)
+            results.append(r)
+            _report(r)
+    fails = sum(1 for _, ok, _, _ in results if not ok)
     print("selftest: %d mutants, %d failures, %.0fs" % (len(specs), fails, time.time() - t0))
     if not args:
         # snapshot of the last complete run, quoted by the evidence files
